@@ -34,6 +34,32 @@ theorem osu_accuracy_zero_hits (s : OsuState) (h : s.totalHits = 0) : s.accuracy
   apply osu_accuracy_zero_den
   simp only [OsuState.accDen, h]; norm_num
 
+/-- the `u32` arithmetic of the code agrees with the exact model as long as `6 * total_hits` fits -/
+theorem osu_accuracy_wrapped_eq (s : OsuState) (h : 6 * s.totalHits < 4294967296) :
+    s.accuracyStableWrapped = s.accuracy .stable := by
+  have hn : 6 * s.n300 + 2 * s.n100 + s.n50 < 4294967296 := by unfold OsuState.totalHits at h; omega
+  have ht : s.totalHits < 4294967296 := by omega
+  unfold OsuState.accuracyStableWrapped
+  simp only [Nat.mod_eq_of_lt hn, Nat.mod_eq_of_lt ht, Nat.mod_eq_of_lt h]
+  have hD : s.accDen .stable = ((6 * s.totalHits : Nat) : Rat) := rfl
+  have hN : s.accNum .stable = ((6 * s.n300 + 2 * s.n100 + s.n50 : Nat) : Rat) := rfl
+  unfold OsuState.accuracy
+  by_cases h0 : 6 * s.totalHits = 0
+  · have : s.accDen .stable = 0 := by rw [hD]; exact_mod_cast h0
+    rw [if_pos h0, if_pos this]
+  · have : s.accDen .stable ≠ 0 := by rw [hD]; exact_mod_cast h0
+    rw [if_neg h0, if_neg this, hD, hN]
+
+/-- "accuracy ≤ 1 for every `u32` state" is FALSE of a release build once `6 * total_hits`
+overflows: one great and 715 827 882 misses wrap the denominator to 2 and give accuracy 3
+(a debug build panics).  Outside the property's quantifier (maps have < 500 000 objects). -/
+def OsuAccuracyWrappedLeOne : Prop := ∀ s : OsuState, s.accuracyStableWrapped ≤ 1
+
+theorem osu_accuracy_wrapped_exceeds_one : ¬ OsuAccuracyWrappedLeOne := by
+  intro h
+  have := h ⟨0, 0, 0, 0, 1, 0, 0, 715827882⟩
+  revert this; decide +kernel
+
 /-- the integer-weighted `NoComboState::accuracy` is the same rational -/
 theorem osu_noCombo_accuracy_eq (s : OsuState) (o : OsuOrigin) : s.noComboAccuracy o = s.accuracy o :=
   osu_noCombo_eq s o
@@ -177,15 +203,6 @@ theorem difficulty_value_all_zero (w : Rat) (peaks : List Rat) (h : ∀ x ∈ pe
 /-- the number of strains the loop visits is the number of non-zero peaks -/
 theorem difficulty_value_visits_nonzero (peaks : List Rat) :
     (sortDesc (peaks.filter (· ≠ 0))).length = (peaks.filter (· ≠ 0)).length := length_sortDesc _
-
-theorem forall2_nonneg {l l' : List Rat} (h : List.Forall₂ (· ≤ ·) l l') : (∀ x ∈ l, 0 ≤ x) → ∀ y ∈ l', 0 ≤ y := by
-  induction h with
-  | nil => intro _ y hy; cases hy
-  | cons hab _ ih =>
-    intro hl y hy
-    rcases List.mem_cons.mp hy with e | e
-    · rw [e]; exact le_trans (hl _ List.mem_cons_self) hab
-    · exact ih (fun x hx => hl x (List.mem_cons_of_mem _ hx)) y e
 
 /-- monotone in every peak simultaneously (pointwise order), hence in each single peak -/
 theorem difficulty_value_mono (w : Rat) (hw : 0 ≤ w) (l l' : List Rat) (hl : ∀ x ∈ l, 0 ≤ x)
